@@ -226,7 +226,8 @@ def job_inner(j):
         key = hashlib.sha1(('\n'.join(a.sexpr() for a in assertions)).encode()).hexdigest()
         rec = dict(label=ob.label, kind=ob.kind, hash=key[:12], size=sum(len(a.sexpr()) for a in assertions))
         if key in seen:
-            rec.update(verdict=seen[key]['verdict'], solver='dedup', time=0.0, dup=True)
+            rec.update(seen[key])
+            rec.update(label=ob.label, solver='dedup', time=0.0, dup=True)
             obs.append(rec)
             continue
         excluded = []
@@ -498,6 +499,8 @@ def finish(pid, seed, t0, t_export, results, known):
     rc = 0
     replay_dir = os.path.join(ROOT, 'replays', pid)
     for (r, o) in violations:
+        if o.get('dup'):
+            continue
         os.makedirs(replay_dir, exist_ok=True)
         path = os.path.join(replay_dir, o['hash'] + '.json')
         with open(path, 'w') as f:
